@@ -131,6 +131,10 @@ def transform(case):
             if any(isinstance(s.get("val"), dict) and s["val"].get("op") == "+" and s["val"].get("c", 0) > 0 for s in prog["stmts"]) or \
                     any(v.get("op") == "+" for s in prog["stmts"] for v in s.get("vals", [])):
                 return None
+            # a label on a no-byte statement behind the last byte would name address $10000, which does not exist
+            last = max((i for i, s in enumerate(prog["stmts"]) if proggen.size_bounds(s)[1] > 0), default=-1)
+            if any(s.get("lab") and s["k"] != "equ" for s in prog["stmts"][last + 1:]):
+                return None
             d = 0x10000 - len(base.image) - o
             if d == 0:
                 return None
@@ -144,6 +148,8 @@ def transform(case):
             return None
         if (o < 0x100) != (new < 0x100) or (o < 0x100 and not (lo_side and new + size + 16 < 0x100)):
             return None
+        if any(s["k"] == "pcr" and s["val"].get("op") == "+" and new + size + s["val"]["c"] > 0xFFFF for s in prog["stmts"]):
+            return None                                  # a label+c target would pass $FFFF after the move (may be refused)
         # label-c operands must stay >= 0 on both sides: generator already avoids label-c below 16
         p2 = copy.deepcopy(prog)
         p2["org"] = new
@@ -151,7 +157,10 @@ def transform(case):
         return lines, proggen.render(p2), dict(d=d, prog2=p2)
     if T["kind"] == "rename":
         syms = _symbols_of(prog)
-        fresh = [n for n in T["names"] if n.upper() not in _RESERVED and n not in syms]
+        # in half of the cases the first new names are ones that merely look like registers, mnemonics or hex numbers
+        tricky = ["AB", "BD", "ABD", "XY", "DA", "AH", "BEACH", "PCRX", "CCR", "LDA1", "ORG1", "SP"] if sum(map(len, T["names"][:3])) % 2 else []
+        fresh = [n for n in tricky + T["names"] if n.upper() not in _RESERVED and n not in syms]
+        fresh = [n for i, n in enumerate(fresh) if n.upper() not in [m.upper() for m in fresh[:i]]]
         if len(fresh) < len(syms) or not syms:
             return None
         mapping = dict(zip(syms, fresh))
@@ -180,6 +189,8 @@ def transform(case):
         total = sum(proggen.size_bounds(s)[1] for s in prog["stmts"] + tail)
         if (prog["org"] or 0) + total + 16 > 65536:
             return None                                  # the longer program would not fit below $FFFF
+        if any(s["k"] == "pcr" and s["val"].get("op") == "+" and (prog["org"] or 0) + total + s["val"]["c"] > 0xFFFF for s in tail):
+            return None                                  # a label+c target of the appended part would pass $FFFF (may be refused)
         p2 = dict(prog, stmts=prog["stmts"] + tail)
         return lines, proggen.render(p2), dict(n_prefix=len(prog["stmts"]))
     return None
